@@ -7,8 +7,8 @@
 //!        netops tryops <workdir>                          try_* calls between marker syscalls (run under strace)
 //! Every endpoint logs (op, requested, result, logical start/end sequence numbers, monotonic
 //! microseconds); payload byte p of a direction is pat(dir, p).  A SIGSEGV (control buffer is placed
-//! against a PROT_NONE page) prints {"crash":id} and exits 42; a plan that does not finish in
-//! 12 s prints {"hang":id} and exits 43.
+//! against a PROT_NONE page) prints {"crash":id} and exits 42; a plan in which no call completes for
+//! 15 s prints {"hang":id} and exits 43.
 use std::io::{BufRead, Write as _};
 use std::sync::atomic::{AtomicI64, AtomicU64, Ordering};
 use std::sync::{Arc, Barrier};
@@ -20,6 +20,8 @@ use tiny_std::UnixString;
 use vharness::{json, Value};
 
 static CUR: AtomicI64 = AtomicI64::new(-1);
+/// number of calls completed so far: the watchdog fires only when NO call completes for 15 s
+static PROGRESS: AtomicU64 = AtomicU64::new(0);
 static IN_OP: std::sync::atomic::AtomicBool = std::sync::atomic::AtomicBool::new(false);
 
 extern "C" fn on_segv(_sig: i32) {
@@ -72,6 +74,7 @@ impl Log {
         o.insert("t0".into(), json!(st.1));
         o.insert("t1".into(), json!(t1));
         self.evs.push(extra);
+        PROGRESS.fetch_add(1, Ordering::Relaxed);
     }
 }
 fn res_of<T>(r: &Result<tiny_std::Result<T>, String>) -> (&'static str, i64) {
@@ -415,13 +418,14 @@ fn x_fd_u(l: &UnixListener) -> i32 {
 
 fn watchdog() {
     std::thread::spawn(|| {
-        let mut last = (-2i64, Instant::now());
+        let mut last = ((-2i64, 0u64), Instant::now());
         loop {
             std::thread::sleep(Duration::from_millis(200));
-            let cur = CUR.load(Ordering::Relaxed);
+            let cur = (CUR.load(Ordering::Relaxed), PROGRESS.load(Ordering::Relaxed));
             if cur != last.0 {
                 last = (cur, Instant::now());
-            } else if cur >= 0 && last.1.elapsed() > Duration::from_secs(12) {
+            } else if cur.0 >= 0 && last.1.elapsed() > Duration::from_secs(15) {
+                let cur = cur.0;
                 println!("{{\"hang\":{cur}}}");
                 unsafe { libc::_exit(43) };
             }
